@@ -67,9 +67,6 @@ func resolveSchedRoles(p *Prog) (*schedRoles, error) {
 			if rangesOver(fn, func(v ssa.Value) bool { return isInputTableType(v.Type()) }) != nil {
 				sr.allDrained = fn
 			}
-			if rangesOver(fn, func(v ssa.Value) bool { return p.isFieldLoad(v, "actual") }) != nil {
-				sr.allZero = fn
-			}
 		}
 		// marks drained: stores true into a Drained field
 		for _, b := range fn.Blocks {
@@ -82,25 +79,40 @@ func resolveSchedRoles(p *Prog) (*schedRoles, error) {
 			}
 		}
 	}
-	if sr.allDrained == nil || sr.allZero == nil || sr.markDrain == nil {
-		return nil, fmt.Errorf("UNRESOLVED-ANCHOR: for-all helpers (all inputs drained / all actual zero) or the drained marker not found in %s", p.Name)
-	}
+	// the wait-for-zero function: a deferred product call whose loop consumes releases and is
+	// controlled by a boolean helper (the all-zero predicate), deferred by the function that
+	// contains the scheduling loop
 	for _, fn := range sr.rt.Funcs {
 		for _, b := range fn.Blocks {
 			for _, in := range b.Instrs {
-				if df, ok := in.(*ssa.Defer); ok {
-					callee := p.Callee(df)
-					if callee == nil || !p.IsProduct(callee) {
-						continue
+				df, ok := in.(*ssa.Defer)
+				if !ok {
+					continue
+				}
+				callee := p.Callee(df)
+				if callee == nil || !p.IsProduct(callee) || len(sccs(callee.Blocks, blockSet(callee.Blocks))) == 0 {
+					continue
+				}
+				consumes := false
+				for _, rs := range p.RecvSites(callee) {
+					role := p.chanRole(rs.Chan)
+					if role == "field:feedback" || role == "field:opts.Feedback" {
+						consumes = true
 					}
-					for _, cs := range calledIn(p, callee) {
-						if cs == sr.allZero {
-							sr.waitZero, sr.loopFn = callee, fn
-						}
+				}
+				if !consumes {
+					continue
+				}
+				for _, cal := range calledIn(p, callee) {
+					if returnsBoolOnly(cal) && len(cal.Params) == 1 && p.IsProduct(cal) {
+						sr.allZero, sr.waitZero, sr.loopFn = cal, callee, fn
 					}
 				}
 			}
 		}
+	}
+	if sr.allDrained == nil || sr.markDrain == nil {
+		return nil, fmt.Errorf("UNRESOLVED-ANCHOR: all-inputs-drained helper or the drained marker not found in %s", p.Name)
 	}
 	if sr.waitZero == nil {
 		return nil, fmt.Errorf("UNRESOLVED-ANCHOR: no deferred wait-for-zero-in-flight function in %s (the wait must be a defer of the scheduling loop function)", p.Name)
@@ -313,6 +325,10 @@ func c07forall(c *Ctx, sr *schedRoles, fn *ssa.Function, what string) {
 	r, p := c.R, sr.p
 	key := p.FnKey(fn)
 	var problems []string
+	if what == "zero" && rangesOver(fn, func(v ssa.Value) bool { return p.isFieldLoad(v, "actual") }) == nil {
+		r.Fail("E3", key, p.Pos(fn.Pos()), "the nothing-in-flight predicate does not range over the whole `actual` map: counters of priorities outside the set it visits (e.g. a removed input with items still in flight) are ignored and termination is signalled while items are unreleased")
+		return
+	}
 	// the loop: SCCs
 	comps := sccs(fn.Blocks, blockSet(fn.Blocks))
 	if len(comps) != 1 {
